@@ -256,6 +256,8 @@ class Context:
             return VBuiltin('exc-class:' + last)        # an external exception class: only its name matters
         if dotted in self.registry.externs:
             return VBuiltin(dotted)
+        if dotted == 'zlib.MAX_WBITS':
+            return VInt(z3.IntVal(15))
         if dotted == 'sys.version_info':
             return VTuple([VInt(3), VInt(12), VInt(1)])
         for pl in self.plugins:
@@ -1450,6 +1452,10 @@ class Context:
         if fn == 'py_replace':
             a0, a1, a2 = [I.seq_of(I.ev(x, frame), node) for x in node.args[:3]]
             return VSeq(self.uf('str_replace', S.sort, S.sort, S.sort, S.sort)(a0.t, a1.t, a2.t), 'list')
+        if fn == 'py_inflate':
+            from .builtins_model import Inflate
+            v = I.seq_of(I.ev(node.args[0], frame), node)
+            return VSeq(Inflate(v.t), 'bytes')
         if fn == 'py_utf8':
             from .builtins_model import Utf8
             v = I.seq_of(I.ev(node.args[0], frame), node)
@@ -1661,9 +1667,11 @@ class Context:
     def call_mode(self, I, fi):
         key = fi.key
         R = self.registry
+        if self.current is not None and self.current.kw.get('callees_as_events') and key in R.opaques:
+            return 'opaque'         # this caller's contract is written over its callees as events (each has its own contract elsewhere)
         if key in R.contracts and R.contracts[key].kw.get('opaque_at_calls') and key in R.opaques \
-                and not (self.current is not None and self.current.key == key):
-            return 'opaque'         # verified on its own; callers see one event (their contracts speak about that event)
+                and (not (self.current is not None and self.current.key == key) or R.contracts[key].of('partial')):
+            return 'opaque'         # (a recursive call too, when the contract declares its termination `partial`)         # verified on its own; callers see one event (their contracts speak about that event)
         if key in R.contracts:
             # the function under verification calling itself, or any other function under contract
             if R.contracts[key].kw.get('inline') and not (self.current is not None and self.current.key == key):
